@@ -360,7 +360,7 @@ func isExprStruct(t types.Type) bool {
 	}
 	hasE := false
 	for i := 0; i < st.NumFields(); i++ {
-		if st.Field(i).Name() == "expr" {
+		if canonId(st.Field(i).Name()) == "expr" {
 			hasE = true
 		}
 	}
@@ -714,7 +714,7 @@ func (d *deriver) exprValue(e ast.Expr, depth int) ast.Expr {
 	info := fn.Info()
 	switch x := ast.Unparen(e).(type) {
 	case *ast.CallExpr:
-		if f := calleeOf(info, x); f != nil && f.Name() == "newExpression" {
+		if f := calleeOf(info, x); f != nil && fname(f) == "newExpression" {
 			return x
 		}
 	case *ast.CompositeLit:
@@ -757,7 +757,7 @@ func fieldActual(info *types.Info, v ast.Expr, name string) ast.Expr {
 	case *ast.CompositeLit:
 		for _, el := range x.Elts {
 			if kv, ok := el.(*ast.KeyValueExpr); ok {
-				if k, ok := kv.Key.(*ast.Ident); ok && k.Name == name {
+				if k, ok := kv.Key.(*ast.Ident); ok && canonId(k.Name) == name {
 					return kv.Value
 				}
 			}
@@ -1384,7 +1384,7 @@ func runTermination(p *Prog, r *Report) {
 			par := p.Parent(cl)
 			okp := false
 			if c, ok := par.(*ast.CallExpr); ok {
-				if f := calleeOf(info, c); f != nil && f.Name() == "Walk" {
+				if f := calleeOf(info, c); f != nil && fname(f) == "Walk" {
 					okp = true
 				}
 			}
@@ -1398,7 +1398,7 @@ func runTermination(p *Prog, r *Report) {
 						okp = false
 						continue
 					}
-					if f := calleeOf(cs.fn.Info(), pc); f == nil || f.Name() != "Walk" {
+					if f := calleeOf(cs.fn.Info(), pc); f == nil || fname(f) != "Walk" {
 						okp = false
 					}
 				}
